@@ -45,7 +45,7 @@ type idx struct {
 }
 
 type op struct {
-	K   string // R G S L K M N W D F O P I U V
+	K   string // R G T S L K M N W D F O P I U V
 	I   idx
 	T   string  // text (R S L), separator (F O P), mode (I U), kind (M)
 	V   F64     // W: numeric view of the value
@@ -77,6 +77,8 @@ func (o op) wire() string {
 		return "R " + hx.HexS(o.T)
 	case "G":
 		return "G " + o.I.wire()
+	case "T":
+		return "T " + o.I.wire()
 	case "S":
 		return "S " + o.I.wire() + " " + hx.HexS(o.T)
 	case "L":
@@ -195,6 +197,9 @@ func render(s script) *rendered {
 			r.stdin += o.T + recSep
 		case "G":
 			out = `"v=" A(` + r.idx(o.I) + `)`
+		case "T":
+			f := r.idx(o.I)
+			out = `"t=" ((` + f + ` == "10") ? ((` + f + ` < 9) ? "S" : "N") : "-")`
 		case "S":
 			sb.WriteString("  " + r.idx(o.I) + " = " + r.str(o.T) + "\n")
 		case "L":
@@ -213,6 +218,10 @@ func render(s script) *rendered {
 			case "app":
 				// the index expression is evaluated twice; both evaluations are reads
 				sb.WriteString("  " + f + " = " + f + " \"x\"\n")
+			case "id":
+				sb.WriteString("  " + f + " = " + f + "\n")
+			case "idsv":
+				sb.WriteString("  sv = " + f + "; " + f + " = sv\n")
 			case "incr":
 				sb.WriteString("  " + f + "++\n")
 			case "add2":
@@ -473,6 +482,41 @@ func csvGetlineProbes(rep *hx.Report) {
 	}
 }
 
+// csvRecordProbes: the same two facts in CSV/TSV input mode (not modelled): a record set to
+// the text it already has is split afresh, and fields of a new record are never "true strings"
+// because of assignments made in an earlier record.
+func csvRecordProbes(rep *hx.Report) {
+	probes := []struct{ mode, vars, in, prog, want string }{
+		{"csv", "", "10,x\n10,y\n", `NR == 1 { $1 = "10"; print ($1 < 9) } NR == 2 { print ($1 < 9), ($2 < 9) }`, "1\n0 0\n"},
+		{"tsv", "", "10\tx\n10\ty\n", `NR == 1 { $1 = "10" } NR == 2 { print ($1 < 9) }`, "0\n"},
+		{"csv", "", "a,10\n10,10\n", `NR == 1 { $3 = "10"; NF = 3 } NR == 2 { NF = 3; print ($1 < 9), ($2 < 9) }`, "0 0\n"},
+		{"csv", "OFS=,", "a,b\n", `{ $2 = "u,v"; $0 = $0; print NF; print $2 }`, "3\nu\n"},
+		{"csv", "OFS=,", "a,b\n", `{ $2 = "u,v"; s = $0; $0 = s; print NF }`, "3\n"},
+		{"tsv", "OFS=\t", "a\tb\n", `{ $1 = "x\ty"; $0 = $0; print NF; print $1 }`, "3\nx\n"},
+		{"csv", "OFS=,", "a,b\na,b\n", `NR == 1 { $1 = "a,b"; $0 = "a,b" } { print NF }`, "2\n2\n"},
+	}
+	for _, p := range probes {
+		vars := []string{"INPUTMODE", p.mode}
+		if p.vars != "" {
+			kv := strings.SplitN(p.vars, "=", 2)
+			vars = append(vars, kv[0], kv[1])
+		}
+		cfg := &interp.Config{Environ: []string{}, Stdin: strings.NewReader(p.in), Vars: vars, NoExec: true, NoFileWrites: true, NoFileReads: true}
+		rr := hx.RunAwk(p.prog, cfg, &parser.ParserConfig{})
+		got := string(rr.Out)
+		if rr.Panic != nil {
+			got = fmt.Sprintf("panic: %v", rr.Panic)
+		} else if rr.Err != nil {
+			got = "error: " + rr.Err.Error()
+		}
+		rep.SearchEvals++
+		if got != p.want {
+			rep.Fail(hx.Failure{Class: "record-reset-csv-input", Oracle: "a record set anew is split afresh and its fields are number-looking strings",
+				Detail: map[string]any{"program": p.prog, "input_mode": p.mode, "vars": p.vars, "stdin_hex": hx.HexS(p.in), "want": p.want, "got": got}})
+		}
+	}
+}
+
 func replay(o hx.Opts) {
 	b, err := os.ReadFile(o.Replay)
 	if err != nil {
@@ -534,7 +578,7 @@ func main() {
 		return
 	}
 	rep := hx.NewReport("C06", o.Seed, o.Tier)
-	rep.Rule = "scripts of record operations: every script of length <= 2 (quick) / <= 3 (thorough) over a 14-op alphabet, then random scripts of 1..12 ops (after a 3-op preamble that fixes the input splitter) over: record arrival, getline var, $0 assignment, field reads/writes with indexes from {0,+-1,+-2,NF+d,-NF+d,0.5,1e6,1e6+1,2^31,2^63,-2^63,1e30,NaN}, getline $i, sub/gsub/append/++/+= on a field, NF reads, NF assignments (integers, fractions, strings, negative, 1e6, 1e6+1, 2^63), NF++/NF+=d, FS from {space, single bytes, multi-byte char, empty, fixed and random regex ASTs, non-compiling}, OFS, RS (newline/empty), INPUTMODE/OUTPUTMODE; texts with blank runs, tabs, NBSP, VT, CR, newlines, invalid UTF-8, empty. 60% of random scripts avoid the input class of the known finding (non-integral NF values) and the NaN index so that everything else is checked to the end. distinct = distinct model request line; non-trivial = at least one mutating operation"
+	rep.Rule = "scripts of record operations: every script of length <= 2 (quick) / <= 3 (thorough) over a 14-op alphabet, then random scripts of 1..12 ops (after a 3-op preamble that fixes the input splitter) over: record arrival, getline var, $0 assignment, field reads/writes with indexes from {0,+-1,+-2,NF+d,-NF+d,0.5,1e6,1e6+1,2^31,2^63,-2^63,1e30,NaN}, getline $i, sub/gsub/append/++/+=/self-assignment ($i = $i, $0 = $0, via a saved copy) on a field or $0, the string-or-strnum typing probe ($i < 9 when $i is \"10\"), NF reads, NF assignments (integers, fractions, strings, negative, 1e6, 1e6+1, 2^63), NF++/NF+=d, FS from {space, single bytes, multi-byte char, empty, fixed and random regex ASTs, non-compiling}, OFS, RS (newline/empty), INPUTMODE/OUTPUTMODE; texts with blank runs, tabs, NBSP, VT, CR, newlines, invalid UTF-8, empty. 60% of random scripts avoid the input class of the known finding (non-integral NF values) and the NaN index so that everything else is checked to the end. distinct = distinct model request line; non-trivial = at least one mutating operation"
 	r := hx.NewRand(o.Seed)
 	scripts := genScripts(o, r)
 	nFixed := len(fixedScripts())
@@ -590,5 +634,6 @@ func main() {
 		}
 	}
 	csvGetlineProbes(rep)
+	csvRecordProbes(rep)
 	rep.Write(o.Out)
 }
